@@ -26,7 +26,7 @@ class Job:
                  loop_contracts=False, unwindset=(), expected_wrap=(), timeout=1500, defines=(), backend='sat',
                  min_obligations=1, reach=('return',), enforce=True, pre_includes=('stubs/gmp_types.h',),
                  checks=None, proves='', entry_hook=None, replay=None, opaque=(), extra_roots=(), no_reach_return=False,
-                 object_bits=None, bounded_note=None, nondet_static=False, aux_tu=None, throwing_stubs=(), ghost_buffers=None, weight=1, default_unwind=None):
+                 object_bits=None, bounded_note=None, nondet_static=False, aux_tu=None, throwing_stubs=(), ghost_buffers=None, weight=1, default_unwind=None, gen_header=None):
         self.__dict__.update(locals()); del self.__dict__['self']
 
 class Obligation:
@@ -164,6 +164,14 @@ def run_job(sess, job):
         if job.tier == 'S': jc += '#define OSMT_W %d\n' % job.width
         jc += '#include "%s"\n#include "%s"\n' % (os.path.join(VERIF, TYPE_HDR[job.tier]), os.path.join(VERIF, 'include/osmt_rt.h'))
         for inc in job.pre_includes: jc += '#include "%s"\n' % os.path.join(VERIF, inc)
+        # string tables found in initialisers of global containers (e.g. tokens::tokenNames), and job-generated headers
+        gen = ''
+        for gname, strs in (lw.meta.get('string_tables') or {}).items():
+            gen += 'static const char *TAB_%s[] = { %s };\nstatic const int TAB_%s_n = %d;\n' % (gname, ', '.join(json.dumps(x) for x in strs), gname, len(strs))
+        if getattr(job, 'gen_header', None): gen += job.gen_header(sess)
+        if gen:
+            open(os.path.join(d, 'gen.h'), 'w').write(gen)
+            jc += '#define OSMT_GEN_INCLUDE "%s"\n' % os.path.join(d, 'gen.h')
         jc += '#define OSMT_ROOT %s\n' % rootc
         if job.header: jc += '#define OSMT_MID_INCLUDE "%s"\n' % os.path.join(VERIF, job.header)
         jc += '#include "%s"\n' % os.path.join(d, 'lowered.c')
@@ -181,6 +189,12 @@ def run_job(sess, job):
             rc, so, se, t = sh(cmd, timeout=300); res['cmds'].append(' '.join(cmd))
             if rc != 0: raise Undecided('goto-instrument --unwindset failed: ' + (se + so)[-800:])
             cur = 'u.gb'
+        # 2b a function without a body (a stub nobody wrote) must never behave as "returns anything": its call is an obligation
+        cmd = ['goto-instrument', '--generate-function-body', r'^(?!nondet_)(?!__CPROVER)(?!malloc$)(?!free$)(?!__builtin).*', '--generate-function-body-options', 'assert-false-assume-false',
+               os.path.join(d, cur), os.path.join(d, 'g.gb')]
+        rc, so, se, t = sh(cmd, timeout=300); res['cmds'].append(' '.join(cmd))
+        if rc != 0: raise Undecided('goto-instrument --generate-function-body failed: ' + (se + so)[-800:])
+        cur = 'g.gb'
         # 3 property instrumentation of the user code only (the dfcc library stays uninstrumented)
         flags = list(job.checks if job.checks is not None else CHECK_FLAGS)
         cmd = ['goto-instrument'] + flags + [os.path.join(d, cur), os.path.join(d, 'b.gb')]
